@@ -20,7 +20,15 @@ ExtraTemplates ==
     Node("while", "", <<A, If(B, E(Id("c")), E(Id("d")))>>),
     Node("for", "", <<Nil, Nil, Nil, E(Node("un", "-", <<A>>))>>),
     If(A, Blk(<<E(B), E(Id("c"))>>), Blk(<<Blk(<<E(Id("d"))>>)>>)),
-    E(Node("call", "", <<Id("f"), Fn(Nil, <<Id("p")>>, <<E(A), Ret(Id("p"))>>), B>>)) }
+    E(Node("call", "", <<Id("f"), Fn(Nil, <<Id("p")>>, <<E(A), Ret(Id("p"))>>), B>>)),
+    E(Num("1")), E(Bin("*", Node("flt", "1.5", <<>>), A)), E(Bin("&&", Node("bool", "true", <<>>), B)), E(Node("null", "", <<>>)),
+    If(A, E(Node("asg", "=", <<Id("x"), Node("obj", "", <<Id("k"), Num("1")>>)>>)), E(B)),
+    If(A, E(Node("asg", "=", <<Id("x"), Fn(Nil, <<>>, <<>>)>>)), E(B)),
+    E(Node("un", "-", <<Node("un", "-", <<A>>)>>)), E(Node("un", "-", <<Node("un", "--", <<A>>)>>)),
+    E(Bin("-", A, Node("un", "-", <<B>>))), E(Bin("+", A, Node("un", "++", <<B>>))), E(Bin("<", A, Node("un", "!", <<Node("un", "--", <<B>>)>>))) }
+\* first statements put in front of every single-statement program (two-statement programs also
+\* in the small configuration)
+Firsts == {E(A), Let("x", Num("1"))}
 AllTemplates == Templates \cup ExtraTemplates
 
 Init == ss = <<>>
@@ -29,6 +37,7 @@ Spec == Init /\ [][Next]_vars
 
 Programs == IF Len(ss) = 0 THEN {}
             ELSE {Prog(ss), Prog(<<Node("fdecl", "", <<Id("h"), PList(<<>>), Blk(ss)>>)>>)}
+                 \cup (IF Len(ss) = 1 THEN {Prog(<<f>> \o ss) : f \in Firsts} ELSE {})
 
 Decos == {<<"O">>, <<"T">>, <<"B">>, <<"B", "O">>, <<"O", "B">>, <<"T", "O">>, <<"O", "O">>, <<"T", "B">>}
 \* statement-level positions of a laid-out token list (indices): first token, first tokens of
